@@ -84,11 +84,15 @@ func c16Scenario() *explore.Scenario {
 				return
 			}
 			n := ids[x.Choose("id", len(ids))]
+			n0 := n.Name
 			cfgID := []byte{0x00, 0x01, 0x7f, 0xff}[x.Choose("configid", 4)]
 			suiteDraw := byte(x.Choose("suite", 2))
 			lenDraw := byte(x.Choose("payloadlen", 4))
 			hrrKind := x.Choose("srv.hrr", 3) // 0 none, 1 HelloRetryRequest, 2 HelloRetryRequest carrying a cookie
 			hrr := hrrKind != 0
+			// a sibling connection (another GREASE-ECH parrot with its own Config) builds its ClientHello
+			// while this one is waiting for the server's first message, as a client dialling in parallel does
+			sibling := x.Choose("sibling-built-meanwhile", 2) == 1
 			spec, _ := tls.UTLSIdToSpec(n.ID)
 			var g *tls.GREASEEncryptedClientHelloExtension
 			for _, e := range spec.Extensions {
@@ -104,7 +108,7 @@ func c16Scenario() *explore.Scenario {
 				r.Obs = "len-index-out-of-range"
 				return
 			}
-			what := fmt.Sprintf("%s configid-draw=%#02x suite-draw=%d len-draw=%d hrr=%d", n.Name, cfgID, suiteDraw, lenDraw, hrrKind)
+			what := fmt.Sprintf("%s configid-draw=%#02x suite-draw=%d len-draw=%d hrr=%d sibling=%v", n.Name, cfgID, suiteDraw, lenDraw, hrrKind, sibling)
 			saved := rand.Reader
 			defer func() { rand.Reader = saved }()
 			type view struct {
@@ -127,9 +131,30 @@ func c16Scenario() *explore.Scenario {
 				var unhook func()
 				hs := peer.Run(cfg, n.ID, scfg, peer.Opts{Echo: true, Prepare: withBuildOrder(nil, conn%3), WrapClient: func(e *peer.Endpoint) { ce = e },
 					OnConns: func(u *tls.UConn, s *tls.Conn) {
-						if hrrKind == 2 {
-							hk := &connHooks{addHRRCookie: rep(0xC0, 32)}
-							hk.Out = func(n int, t uint8, d []byte) []byte { return baseTransform(hk, t, d) }
+						if hrrKind == 2 || sibling {
+							hk := &connHooks{}
+							if hrrKind == 2 {
+								hk.addHRRCookie = rep(0xC0, 32)
+							}
+							built := false
+							hk.Out = func(n int, t uint8, d []byte) []byte {
+								if sibling && t == 2 && !built {
+									built = true
+									other := ids[0]
+									if other.Name == n0 {
+										other = ids[len(ids)-1]
+									}
+									pe, pse := peer.Pipe()
+									pse.SetIdle()
+									b := tls.UClient(pe, peer.ClientConfig("sibling.example"), other.ID)
+									func() {
+										defer func() { recover() }()
+										b.BuildHandshakeState()
+									}()
+									pe.Close()
+								}
+								return baseTransform(hk, t, d)
+							}
 							unhook = installHooks(s, hk)
 						}
 					}})
